@@ -8,7 +8,10 @@ K2: Parquet files with controlled statistics from the extracted spec writer (`pq
     engine's own EXPLAIN shows as pushed).
 K3: the REAL GlobHandle over in-memory directory trees (gv_prune glob) vs the extracted walk (exact order) and
     vs the declarative meaning of the pattern; glob() / read_csv('pattern') over directory trees on disk.
-K4: read_csv([..]) / read_parquet([..]) / glob forms vs the union of the single files, partitions 1..8."""
+K4: read_csv([..]) / read_parquet([..]) / glob forms vs the union of the single files, partitions 1..8.
+K5: reusable per-partition state: read_text / read_csv / read_parquet over lists and globs of 3-8 files of
+    deliberately different sizes (0, 1, around 4096, > 8000 bytes; descending / ascending / shuffled) under
+    partitions 1, 2, #files-1, #files+3: rows (content byte-exact) == rows of the single files == text_multi."""
 import fnmatch, json, os, shutil, struct, time
 from . import common
 
@@ -44,7 +47,7 @@ def rel(path):
 
 # ---------------------------------------------------------------- K1: should_prune
 def k1_cases(rng, tier):
-    n = 30000 if tier == "quick" else 200000
+    n = 20000 if tier == "quick" else 200000
     cases = []
     for i in range(n):
         lt = rng.choice(list(ITYPES))
@@ -257,7 +260,7 @@ def glob_eval(cases, real, gmodel):
 
 
 def stage_glob_mem(ctx, rng, gvprune, gmodel, known_ids):
-    n = 12000 if ctx["tier"] == "quick" else 60000
+    n = 8000 if ctx["tier"] == "quick" else 60000
     cases = []
     for i in range(n):
         tree = gen_tree(rng, "r", 1 + rng.below(4))
@@ -755,7 +758,7 @@ def parse_pushed(explain_rows):
 
 
 def stage_pq(ctx, rng, gverif, gmodel, known_ids):
-    nfiles = 200 if ctx["tier"] == "quick" else 2000
+    nfiles = 120 if ctx["tier"] == "quick" else 2000
     os.makedirs(WDIR, exist_ok=True)
     cases = [gen_pq_case(rng, 0, "w29")] + [gen_pq_case(rng, i) for i in range(1, nfiles)]
     gpq = common.build_ocaml("pq")
@@ -902,7 +905,7 @@ def stage_multi(ctx, rng, gverif, gmodel, known_ids):
             q, rng.choice([1, 2, 3]), " ".join(str(i * 100 + j) for j in range(n)), " ".join(str(v) for v in vals)))
     gpq = common.build_ocaml("pq")
     common.run_model(gpq, "write", specs, timeout=300)
-    nlists = 25 if ctx["tier"] == "quick" else 250
+    nlists = 15 if ctx["tier"] == "quick" else 250
     send, plan = [], []
     for li in range(nlists):
         k = 1 + rng.below(6)
@@ -959,6 +962,151 @@ def stage_multi(ctx, rng, gverif, gmodel, known_ids):
             "sample": {"sql": send[0]["stmts"][1], "files": len(plan[0][1]), "model_deal_6_files_4_partitions(skip/step_by ; idx%p)": deal}}
 
 
+# ---------------------------------------------------------------- K5: reusable per-partition state, files of different sizes
+SIZE_PLANS = [[5000, 1, 0, 4097, 300, 2, 8192, 17], [9000, 4096, 64, 3, 1, 0], [0, 1, 4097], [6000, 10, 6000, 0, 5], [4097, 4096, 4095, 1]]
+
+
+def text_of(rng, fid, size):
+    """valid UTF-8 of exactly `size` bytes, distinct per file"""
+    alphabet = ["a", "b", "Z", "0", "\n", " ", ",", "é", "中", "q", "x", "y"]
+    head = ("<%d>" % fid).encode()
+    out = bytearray(head[:size])
+    while len(out) < size:
+        ch = rng.choice(alphabet).encode()
+        if len(out) + len(ch) <= size:
+            out += ch
+        else:
+            out += b"~"
+    return bytes(out)
+
+
+def stage_state_reuse(ctx, rng, gverif, gmodel):
+    base = os.path.join(WDIR, "sz")
+    shutil.rmtree(base, ignore_errors=True)
+    nsets = 5 if ctx["tier"] == "quick" else 40
+    send, plan, model_lines, model_keys = [], [], [], []
+    gpq = common.build_ocaml("pq")
+    specs = []
+    for si in range(nsets):
+        sizes = list(SIZE_PLANS[si % len(SIZE_PLANS)]) if si < len(SIZE_PLANS) else [rng.choice([0, 1, 2, 17, 300, 4095, 4096, 4097, 5000, 9000]) for _ in range(3 + rng.below(6))]
+        order = ["desc", "asc", "given", "shuffle"][si % 4]
+        if order == "desc":
+            sizes.sort(reverse=True)
+        elif order == "asc":
+            sizes.sort()
+        elif order == "shuffle":
+            sizes = rng.shuffle(sizes)
+        k = len(sizes)
+        parts = sorted(set([1, 2, max(1, k - 1), k + 3]))
+        for kind in ("text", "csv", "parquet"):
+            d = os.path.join(base, "s%d_%s" % (si, kind))
+            os.makedirs(d)
+            files, rows_of = [], {}
+            for fi, size in enumerate(sizes):
+                ext = {"text": "txt", "csv": "csv", "parquet": "parquet"}[kind]
+                pth = os.path.join(d, "f%d.%s" % (fi, ext))
+                files.append(pth)
+                if kind == "text":
+                    data = text_of(rng, si * 100 + fi, size)
+                    open(pth, "wb").write(data)
+                    rows_of[pth] = [{"content": data.decode("utf-8"), "bytes": data}]
+                elif kind == "csv":
+                    # the size drives the shape: number of rows and the width of the text field
+                    nrows = 1 + size % 7 if size < 4096 else 40 + size % 50
+                    # records stay well below 4096 bytes: a CSV file whose first record is longer than the sniffer's
+                    # sample is inferred as all-Boolean (CSV inference, outside this property; reported to the lead)
+                    width = max(1, min(size, 1500) // max(1, nrows // 8 + 1))
+                    rws = [(si * 1000 + fi * 50 + j, "xq_" + "".join(rng.choice("abcdef") for _ in range((width + j) % (width + 1)))) for j in range(nrows)]
+                    open(pth, "w").write("a,s\n" + "".join("%d,%s\n" % r for r in rws))
+                    rows_of[pth] = rws
+                else:
+                    nrows = 1 + size % 5 if size < 4096 else 30 + size % 40
+                    width = max(1, min(size, 3000) // nrows)
+                    rws = [(si * 1000 + fi * 50 + j, "p" + "".join(rng.choice("ghijk") for _ in range((width * (j + 1)) % (width + 3)))) for j in range(nrows)]
+                    specs.append('(file (out "%s") (rgs %d) (col (name "rid") (type i32) (vals %s)) (col (name "s") (type bytes) (conv 0) (pages %d) (vals %s)))' % (
+                        pth, rng.choice([1, 2, 7, max(1, nrows)]), " ".join(str(r[0]) for r in rws), rng.choice([1, 3, max(1, nrows)]),
+                        " ".join("x" + r[1].encode().hex() for r in rws)))
+                    rows_of[pth] = rws
+            lst = "[" + ", ".join("'%s'" % rel(f) for f in files) + "]"
+            glb = "'%s/*.%s'" % (rel(d), {"text": "txt", "csv": "csv", "parquet": "parquet"}[kind])
+            fn = {"text": "read_text", "csv": "read_csv", "parquet": "read_parquet"}[kind]
+            projs = {"text": ["content, length(content), octet_length(content), _filename, _rowid", "content", "_filename", "_rowid, _filename", "length(content)"],
+                     "csv": ["a, s, length(s), _filename, _rowid", "s", "_filename, _rowid"],
+                     "parquet": ["rid, s, length(s), _filename, _rowid", "s", "_rowid, _filename"]}[kind]
+            stmts, checks = [], []
+            for form, arg in (("list", lst), ("glob", glb)):
+                for p in parts:
+                    stmts.append("set partitions to %d" % p)
+                    for pj in (projs if p in (1, parts[-2]) else projs[:2]):
+                        stmts.append("select %s from %s(%s)" % (pj, fn, arg))
+                        checks.append((len(stmts) - 1, pj, form, p))
+            for pj in projs[:1]:
+                stmts.append(" union all ".join("select %s from %s('%s')" % (pj, fn, rel(f)) for f in files))
+                checks.append((len(stmts) - 1, pj, "union-all-of-single-scans", 0))
+            send.append({"id": "z%d%s" % (si, kind), "mode": "threaded", "threads": 4, "stmts": stmts, "timeout_s": 120})
+            plan.append((kind, files, rows_of, checks, sizes))
+            if kind == "text":
+                for p in parts:
+                    model_lines.append("(text 1 %d %s)" % (p, " ".join(rows_of[f][0]["bytes"].hex() or "-" for f in files)))
+                    model_keys.append((len(plan) - 1, p))
+    if specs:
+        common.run_model(gpq, "write", specs, timeout=600)
+    mouts = common.run_model(gmodel, "run", model_lines, timeout=300)
+    model_bag = {}
+    for key, o in zip(model_keys, mouts):
+        model_bag[key] = sorted(bytes.fromhex(t[1:]) for t in o.split())
+    real = common.run_harness(gverif, "sql", send, timeout=1800)
+    viol, st, distinct = [], {"scans": 0, "equal_union": 0, "content_bytes_compared": 0, "model_bags_equal_files": 0}, set()
+
+    def cell(kind, f, r, j, item):
+        item = item.strip()
+        if item == "_filename":
+            return "S" + rel(f)
+        if item == "_rowid":
+            return "I%d" % j
+        if kind == "text":
+            return {"content": "S" + r["content"], "length(content)": "I%d" % len(r["content"]), "octet_length(content)": "I%d" % len(r["bytes"])}[item]
+        return {"a": "I%d" % r[0], "rid": "I%d" % r[0], "s": "S" + r[1], "length(s)": "I%d" % len(r[1])}[item]
+    for pi, ((kind, files, rows_of, checks, sizes), sd, r) in enumerate(zip(plan, send, real)):
+        rs = r.get("results") or []
+        if kind == "text":
+            want_bag = sorted(rows_of[f][0]["bytes"] for f in files)
+            for (qi, p), bag in model_bag.items():
+                if qi == pi:
+                    if bag == want_bag:
+                        st["model_bags_equal_files"] += 1
+                    else:
+                        viol.append({"what": "model/MultiFile.v text_multi does not return the files' contents", "replay": {"files": files, "partitions": p}, "no_input": True})
+        for si_, pj, form, p in checks:
+            res = rs[si_] if si_ < len(rs) else None
+            st["scans"] += 1
+            items = pj.split(", ")
+            want = sorted(json.dumps([cell(kind, f, rw, j, it) for it in items]) for f in files for j, rw in enumerate(rows_of[f]))
+            f_ = sql_fail(res)
+            got = None if f_ else sorted(json.dumps(x) for x in res["rows"])
+            if got == want:
+                st["equal_union"] += 1
+                if kind == "text" and "content" in items:
+                    st["content_bytes_compared"] += sum(sizes)
+                distinct.add((kind, form, p, pj, tuple(sizes)))
+                continue
+            first = None
+            if got is not None:
+                bad = [x for x in got if x not in want][:1]
+                first = bad[0][:200] if bad else None
+            viol.append({"what": "multi-file %s: the rows of a file depend on the other files of the scan (result differs from the union of the single-file scans; %s form, %d partition(s))" % (
+                             {"text": "read_text", "csv": "read_csv", "parquet": "read_parquet"}[kind], form, p),
+                         "replay": {"dir": os.path.dirname(files[0]), "file_sizes_in_list_order": [os.path.getsize(f) for f in files],
+                                    "sql": ["set partitions to %d" % p, sd["stmts"][si_]], "failure": f_,
+                                    "want_rows": len(want), "got_rows": None if got is None else len(got), "first_unexpected_row": first,
+                                    "how": "the files are under <dir> (written by vlib/c11.py stage_state_reuse); run the sql with gverif sql from " + os.getcwd()},
+                         "no_input": False})
+            break
+    grow = common.run_model(gmodel, "run", ["(textgrow 010203 09)"])[0]
+    return {"stats": st, "viol": viol, "distinct": len(distinct),
+            "sample": {"sql": send[0]["stmts"][1], "sizes": plan[0][4], "refuted_grow_only_variant(010203 then 09)": grow}}
+
+
 KNOWN_TEXT = {
     "glob-dstar-not-last": "`**` followed by another segment never stands for zero directories (and `**/**` lists a directory once per split): matching files are omitted or returned twice (glob.rs GlobHandle::poll_expand, source TODO)",
 }
@@ -994,8 +1142,10 @@ def run(ctx):
     k2 = stage_pq(ctx, rng, gverif, gmodel, known_ids)
     tm["K2"] = round(time.time() - t1, 1); t1 = time.time()
     k4 = stage_multi(ctx, rng, gverif, gmodel, known_ids)
-    tm["K4"] = round(time.time() - t1, 1)
-    prop_viol = k3["viol"] + k3b["viol"] + k2["viol"] + k4["viol"]
+    tm["K4"] = round(time.time() - t1, 1); t1 = time.time()
+    k5 = stage_state_reuse(ctx, rng, gverif, gmodel)
+    tm["K5"] = round(time.time() - t1, 1)
+    prop_viol = k3["viol"] + k3b["viol"] + k2["viol"] + k4["viol"] + k5["viol"]
     out["violations"] += prop_viol
     merged = {}
     for src in (k2["known"], k3["known"], k3b["known"]):
@@ -1026,13 +1176,13 @@ def run(ctx):
                          "pushed filters of a query are read from the engine's own EXPLAIN (data_scan_filters)",
                          "modelled not verified: column_prune.rs / scan_filter.rs rewriting (checked through SQL only), the partition assignment of files (model/MultiFile.v is checked at the level of result bags only), S3/GCS/HTTP directory handles"],
         "theorems": obligations,
-        "evaluations": k1["cases"] + k3["stats"]["cases"] + k3b["stats"]["patterns"] * 2 + k2["stats"]["queries"] + k4["stats"]["scans"],
-        "distinct_nontrivial": k1["distinct"] + k3["distinct"] + k2["distinct"] + k4["distinct"],
-        "rule": "K1: real should_prune/from_thrift output string == extracted model's, every generated (type, statistics, constants); distinct = (type, op, outcome, constant kinds, bounds present). K3: real GlobHandle path list == extracted walk (exact order when the directory lists at once, bag otherwise) and == declarative matches unless the pattern is in the known class; distinct = (segments, matches, chunking). K2: rows of SELECT..FROM read_parquet WHERE == rows over the materialised copy == rows computed from the table, per (query, partitions); distinct = (column types/statistics modes, row groups, projection, predicate shape, partitions, result size, model's dropped groups). K4: multi-file / glob scan bag == union of the files per partitions 1..8.",
-        "samples": [k1["sample"], k3["sample"], k2["sample"], k4["sample"]],
+        "evaluations": k1["cases"] + k3["stats"]["cases"] + k3b["stats"]["patterns"] * 2 + k2["stats"]["queries"] + k4["stats"]["scans"] + k5["stats"]["scans"],
+        "distinct_nontrivial": k1["distinct"] + k3["distinct"] + k2["distinct"] + k4["distinct"] + k5["distinct"],
+        "rule": "K1: real should_prune/from_thrift output string == extracted model's, every generated (type, statistics, constants); distinct = (type, op, outcome, constant kinds, bounds present). K3: real GlobHandle path list == extracted walk (exact order when the directory lists at once, bag otherwise) and == declarative matches unless the pattern is in the known class; distinct = (segments, matches, chunking). K2: rows of SELECT..FROM read_parquet WHERE == rows over the materialised copy == rows computed from the table, per (query, partitions); distinct = (column types/statistics modes, row groups, projection, predicate shape, partitions, result size, model's dropped groups). K4: multi-file / glob scan bag == union of the files per partitions 1..8. K5: read_text / read_csv / read_parquet over lists and globs of 3-8 files of deliberately different sizes (0, 1, 4095..4097, > 8000 bytes; descending, ascending, shuffled), projections with and without content/_filename/_rowid, partitions 1, 2, #files-1, #files+3: rows (content byte-exact, char and byte lengths) == rows of the single files; read_text contents also == extracted text_multi.",
+        "samples": [k1["sample"], k3["sample"], k2["sample"], k4["sample"], k5["sample"]],
         "prune_cases": k1["cases"], "prune_cases_true": k1["pruned_true"], "prune_model_mismatches": len(k1["mismatches"]),
         "glob_mem": k3["stats"], "glob_model_mismatches": len(k3["mismatches"]), "glob_disk": k3b["stats"],
-        "stage_seconds": tm, "parquet": k2["stats"], "multifile": k4["stats"], "exhaustive": False,
+        "stage_seconds": tm, "parquet": k2["stats"], "multifile": k4["stats"], "state_reuse_different_sizes": k5["stats"], "exhaustive": False,
     }
     out["assumptions"] = [
         "generated Parquet statistics are valid for the format (min/max of the chunk in the order the format prescribes, or wider bounds flagged inexact) and their bounds lie in the range of the logical type (the hypothesis C11_prune_sound_bounds_in_lrange needs for Int8/Int16/UInt8/UInt16; refuted without it); statistics that lie about the data are outside the property",
